@@ -432,6 +432,86 @@ def _places(x):
     return out
 
 
+def r2010(ctx, fx, cg):
+    rid = ctx.rule("R20.10", "a thread that its owner joins does not sleep for long: every `thread::sleep` reachable from the closure of a joined thread (the debugger "
+                   "thread, the machine poller) takes a constant duration — `Duration::from_millis/secs(<literal>)` of at most one second, or a named constant. A duration that is "
+                   "computed (a back-off that grows, a `remaining` that is not cut into steps) is a wait the joiner cannot cut short: `exit` after `shutdown` "
+                   "takes as long as the sleep that happens to be in progress")
+    owners = {}
+    for f in fx.all_fns("mos"):
+        if "::tests::" in f.path or "::testing" in f.path or not f.blocks:
+            continue
+        o = f
+        while o.kind == "closure" and o.d.get("parent") in fx.fns:
+            o = fx.fns[o.d["parent"]]
+        ty = o.d.get("impl_self")
+        if not ty:
+            continue
+        for bi, t in lib.calls(f):
+            p = lib.norm(lib.callee(t)[0] or "")
+            if p.endswith("JoinHandle::join"):
+                owners.setdefault(ty, {"spawn": [], "join": 0})["join"] += 1
+            elif (p.startswith("std::thread") and p.endswith("::spawn")) or p.endswith("Builder::spawn"):
+                owners.setdefault(ty, {"spawn": [], "join": 0})["spawn"].append((f, t))
+    n = 0
+    seen = set()
+    for ty, d in sorted(owners.items()):
+        if not d["spawn"] or not d["join"]:
+            continue
+        for g, t in d["spawn"]:
+            aty = g.locals[lib.op_local(t["args"][0])]["ty"] if t.get("args") and lib.op_local(t["args"][0]) is not None else ""
+            clos = [c for c in fx.fns.values() if c.kind == "closure" and c.path.startswith(g.path + "::{closure") and ("@%s:" % c.where) in aty.replace(": ", ":")]
+            for c in clos:
+                for fid in sorted(cg.reach([c.id]), key=lambda i: fx.fns[i].path):
+                    f = fx.fns[fid]
+                    if f.crate != "mos" or "::tests::" in f.path or not f.blocks:
+                        continue
+                    du = None
+                    k0 = 0
+                    for bi, t2 in lib.calls(f):
+                        p2 = lib.norm(lib.callee(t2)[0] or "")
+                        if not (p2.endswith("thread::sleep") or p2.endswith("thread::functions::sleep")):
+                            continue
+                        k0 += 1
+                        key = "%s|sleep#%d" % (f.path, k0)
+                        if key in seen:
+                            continue
+                        seen.add(key)
+                        n += 1
+                        du = du or lib.DefUse(f)
+                        a = lib.op_local(t2["args"][0]) if t2.get("args") else None
+                        dd = du.single_def(a) if a is not None else None
+                        for _ in range(6):      # through copies / moves of the value
+                            if dd and dd[2] == "assign" and dd[3]["rv"]["k"] == "use" and lib.op_local(dd[3]["rv"]["op"]) is not None:
+                                dd = du.single_def(lib.op_local(dd[3]["rv"]["op"]))
+                            else:
+                                break
+                        ms = None
+                        if dd and dd[2] == "call":
+                            cp = lib.norm(lib.callee(dd[3])[0] or "")
+                            cst = lib.op_const(dd[3]["args"][0]) if dd[3].get("args") else None
+                            if cst is not None and cst.get("int") is not None:
+                                unit = {"from_millis": 1, "from_secs": 1000, "from_micros": 0.001, "from_nanos": 0.000001}.get(cp.rsplit("::", 1)[-1])
+                                if unit is not None:
+                                    ms = cst["int"] * unit
+                        named = t2.get("args") and lib.op_const(t2["args"][0]) is not None     # a `const` of type Duration: fixed at compile time
+                        # `d.min(<constant>)`: cut into steps of a fixed size
+                        if dd and dd[2] == "call" and lib.norm(lib.callee(dd[3])[0] or "").endswith("::min") and \
+                                any(lib.op_const(a_) is not None for a_ in dd[3].get("args", [])):
+                            named = True
+                        ctx.inst(rid, key, sample={"fn": f.path, "line": t2.get("line"), "milliseconds": ms, "named_constant": bool(named),
+                                                   "joined_thread_of": ty.rsplit("::", 1)[-1]})
+                        if named and ms is None:
+                            continue
+                        if ms is None or ms > 1000:
+                            ctx.finding(rid, key, "%s, which runs on a thread that %s joins, sleeps for %s (line %s): when the joiner asks the thread to stop it answers "
+                                        "only after the sleep in progress — `mos lsp` stays for that long after `exit`" % (
+                                            f.path.rsplit("::", 2)[-2] + "::" + f.path.rsplit("::", 1)[-1], ty.rsplit("::", 1)[-1],
+                                            "a computed duration" if ms is None else "%d ms" % ms, t2.get("line")), "%s:%s" % (f.file, t2.get("line")))
+    if n < 4:
+        ctx.fail_closed(rid, "fewer than 4 sleeps reachable from joined threads found (%d; 7 were counted)" % n)
+
+
 def run(ctx):
     fx = ctx.facts
     cg = lib.CallGraph(fx)
@@ -441,6 +521,7 @@ def run(ctx):
     r207(ctx, fx)
     r208(ctx, fx, cg)
     r209(ctx, fx)
+    r2010(ctx, fx, cg)
     r201(ctx, fx, cg)
     r202(ctx, fx, cg)
     r203(ctx, fx, cg)
